@@ -64,6 +64,25 @@ type parser struct {
 	pos    int
 
 	allowDots bool
+
+	// depth is the current nesting depth of recursive productions.
+	depth int
+}
+
+// maxNesting bounds the recursion depth of the parser: a query nested deeper
+// is rejected instead of overflowing the goroutine stack, which is fatal.
+const maxNesting = 100000
+
+func (p *parser) enter() error {
+	p.depth++
+	if p.depth > maxNesting {
+		return errors.Errorf("expression is nested too deeply (more than %d levels)", maxNesting)
+	}
+	return nil
+}
+
+func (p *parser) leave() {
+	p.depth--
 }
 
 func (p *parser) consume(tt lexer.TokenType) error {
